@@ -471,6 +471,11 @@ def c02_r4(ctx):
         for facts in pths:
             true_facts = [t for (p, t) in facts if p == "T"]
             false_facts = [t for (p, t) in facts if p == "F"]
+            # `m is not None` says the same as `m` for a match object
+            for t in list(false_facts):
+                mm = re.match(r"^\(None is (.*)\)$", t) or re.match(r"^\((.*) is None\)$", t)
+                if mm:
+                    true_facts.append(mm.group(1))
             # (comparison facts are stored in positive form: `a != b` true is recorded as `a == b` false)
             toc_ok = any("_pattern(indexname).match(" in t and ".group(" not in t and "_segment_pattern" not in t for t in true_facts) and \
                 any(re.match(r"^\((gen == int\(.*_pattern\(indexname\)\.match\(.*\)\.group\(1\)\)|int\(.*_pattern\(indexname\)\.match\(.*\)\.group\(1\)\) == gen)\)$", t)
